@@ -52,7 +52,8 @@ class Check:
         self.obligations.append(rec)
         if fn:
             self.functions.add(fn)
-        if sample is not None and len(self.samples) < 40:
+        if sample is not None and r.setdefault("_ns", 0) < 4:
+            r["_ns"] += 1
             self.samples.append({"rule": rule, "instance": instance, "where": where, "fact": sample})
         if not ok:
             r["violations"] += 1
@@ -110,8 +111,8 @@ class Check:
                         "current MIR (function, match arm, call site, CFG path set); distinct = distinct (rule, instance) pairs",
                 "obligations": n_ob,
                 "discharged": n_ok,
-                "samples": self.samples[:25] or [{"note": "no instances"}],
-                "rules": self.rules,
+                "samples": self.samples[:60] or [{"note": "no instances"}],
+                "rules": {k: {"instances": v["instances"], "violations": v["violations"]} for k, v in self.rules.items()},
                 "functions_analysed": sorted(self.functions)[:400],
                 "n_functions_analysed": len(self.functions),
                 "fact_config": getattr(facts, "config", None),
